@@ -158,6 +158,10 @@ def gen_history(rng):
         dims = {'l': rng.randint(1, 8), 'q': [], 's': []}
     else:
         dims = gen.gen_dims(rng, max_rows=12)
+        if rng.random() < 0.12:
+            # a semidefinite block of order zero: legal, contributes nothing
+            dims['s'] = list(dims['s'])
+            dims['s'].insert(rng.randrange(len(dims['s']) + 1), 0)
     pk = gen.packed_dim(dims)
     mnl = rng.choice([0, 0, 1, 2]) if solver != 'qr' else 0
     n = rng.randint(1, max(1, min(5, pk)))
